@@ -23,7 +23,7 @@ func rebuildScenarios(seed int64, bi int, o Omni) []*Scenario {
 	if bi%5 == 1 {
 		opts.Gen.MaxDepth = 3
 	}
-	opts.Gen.DynFocus = bi%6 == 3
+	opts.Gen.DynFocus = bi%3 == 1
 	scs := genScenarios(r, opts)
 	if bi%2 == 0 {
 		// the Terraform-like language: self references, inferred bodies with nested list/map/object blocks
@@ -64,6 +64,33 @@ func runC03(run *Run, replay string) {
 		}
 		scs := rebuildScenarios(run.Res.Seed, bi, oo)
 		fresh := rebuildScenarios(run.Res.Seed, bi, oo)
+		// history independence from a pristine state: positional queries asked first on one fresh world must
+		// equal the same queries asked on another fresh world after whole-file queries have walked every block
+		firstW, afterW := rebuildScenarios(run.Res.Seed, bi, oo), rebuildScenarios(run.Res.Seed, bi, oo)
+		for si := range firstW {
+			a, b := firstW[si], afterW[si]
+			for _, q := range b.fileQueries(b.Main, b.File) {
+				safeCall(q.Name, q.Run)
+			}
+			rr := rand.New(rand.NewSource(subSeed(run.Res.Seed, bi*1000+si+500)))
+			tbl := lcTable(a.Src)
+			for _, off := range cursorOffsets(rr, a.Src, false, o.PosSample) {
+				pos, ok := tbl[off]
+				if !ok {
+					continue
+				}
+				qa, qb := a.posQueries(a.Main, a.File, pos), b.posQueries(b.Main, b.File, pos)
+				for i := range qa {
+					ra, rb := Show(outcomeS(safeCall(qa[i].Name, qa[i].Run))), Show(outcomeS(safeCall(qb[i].Name, qb[i].Run)))
+					run.Res.Evaluations += 2
+					if ra != rb {
+						run.Violate(Violation{Key: "C03/depends-on-earlier-queries/" + strings.SplitN(qa[i].Name, "(", 2)[0], Rule: "a query's result does not depend on which queries ran before it",
+							Func: qa[i].Name, Detail: firstDiff(ra, rb),
+							Replay: locWith(map[string]interface{}{"seed": run.Res.Seed, "base": bi, "scenario": si, "kind": a.Kind, "src": string(a.Src)}, qa[i])})
+					}
+				}
+			}
+		}
 		for si, s := range scs {
 			f := fresh[si]
 			s.W.Collect()
